@@ -89,6 +89,12 @@ def run(ctx):
                 b3 = bundle(ver, urls[0] if ver == 'b1' else None, None, None, exs3)
                 ks = [kA, kB, kC]; rng.shuffle(ks)
                 seqs.append(dict(b=b3, keys=ks, rs=16, dur=3600, long=[True, True, True], shared=shared))
+    # a signer whose certificate covers NONE of the exchanges (its vouched subset is empty but correctly signed), before and after one that does
+    for ver in ('b1', 'b2'):
+        urls = HOSTS[b'example.com'][:3]
+        exs0 = [exch(u, 200, [(b'Content-Type', [b'text/plain'])], rbytes(rng, 20)) for u in urls]
+        for ks in ([kB, kA], [kA, kB], [kB]):
+            seqs.append(dict(b=bundle(ver, urls[0] if ver == 'b1' else None, None, None, exs0), keys=ks, rs=16, dur=3600, long=[False] * len(ks)))
     for b in bundles:
         r = rng.random()
         ks = [kA] if r < 0.4 else [kA, kB] if r < 0.7 else [kB, kA2] if r < 0.85 else [kA, kA2]      # last: overlapping coverage -> error
